@@ -1,6 +1,7 @@
 package main
 
 import (
+	"go/token"
 	"fmt"
 	"go/types"
 	"strings"
@@ -289,6 +290,42 @@ func checkC16(c *Ctx, w *World) {
 		}
 	}
 	c.check(okClose, "C16.close", "Close releases every pool", p.pos(g.closeFn.Pos()), "under gme.mu, every pool's monitor is stopped and its connection closed on every iteration path, on every path of Close", "Close can return without stopping every monitor and closing every pool")
+	// ownership: a successfully dialed connection is handed to the pool table (which Close and the failed-construction
+	// cleanup range over) before anything else can fail; a monitored connection is created nowhere else
+	ndial := 0
+	eachInstr(g.upd, func(in ssa.Instruction) {
+		d, ok := in.(*ssa.Call)
+		if !ok || !isLoadOf(d.Call.Value, "GCPMultiEndpoint.dialFunc") {
+			return
+		}
+		ndial++
+		targets := map[ssa.Instruction]bool{}
+		eachInstr(g.upd, func(x ssa.Instruction) {
+			mu, isMU := x.(*ssa.MapUpdate)
+			if !isMU || !isLoadOf(mu.Map, "GCPMultiEndpoint.pools") {
+				return
+			}
+			if mc, isC := stripConv(mu.Value).(*ssa.Call); isC && isCallTo(mc, g.newMC, p) && isExtractOf(mc.Call.Args[1], d, 0) {
+				targets[x] = true
+			}
+		})
+		// the success successor of the dial's error test
+		var succ *ssa.BasicBlock
+		if iff, isIf := d.Block().Instrs[len(d.Block().Instrs)-1].(*ssa.If); isIf {
+			if bo, isB := iff.Cond.(*ssa.BinOp); isB && isExtractOf(bo.X, d, 1) && isNilConst(bo.Y) {
+				switch bo.Op {
+				case token.NEQ:
+					succ = d.Block().Succs[1]
+				case token.EQL:
+					succ = d.Block().Succs[0]
+				}
+			}
+		}
+		good := succ != nil && len(targets) > 0 && everyPathFromHits(succ, 0, targets)
+		c.check(good, "C16.close", "dialed connection is owned by the pool table at once", p.ipos(d), "on every path after a successful dial the connection is wrapped and stored in gme.pools (reachable by Close and by the failed-construction cleanup) before the update can return or dial again", "a successfully dialed connection can be left outside gme.pools when the update returns (e.g. on a later dial failure): neither Close nor the constructor's cleanup can release it or stop its monitor")
+	})
+	c.floor("C16.close:dial", ndial, 1)
+	g.whoMayCall("C16.close", g.newMC, fname(g.newMC), fname(g.upd))
 	// goroutines
 	ngo := 0
 	for _, fn := range p.Funcs {
